@@ -490,6 +490,11 @@ class SourceCatalog:
         for attr in init_attr:
             setattr(newcls, attr, getattr(self, attr))
 
+        # the new catalog needs its own list of extra property names;
+        # otherwise adding or renaming an extra property in one catalog
+        # would also change the list of the other catalog
+        newcls._extra_properties = list(self._extra_properties)
+
         # _labels determines ordering and isscalar
         attr = '_labels'
         setattr(newcls, attr, getattr(self, attr)[index])
